@@ -704,6 +704,63 @@ theorem attempts_pnw (c : Cfg) (s : Nat → Ev) (i k : Nat) (last : Out) :
     | cons x t => simp at ho; subst ho; exact ar _ (by simp)
   | _ => simp_all [PendNoWrite]
 
+/-! ### the returned reply is the last read -/
+
+/-- the reply (or illegal reply) a request ends with is the one produced by its last read -/
+theorem attempts_reply_last (c : Cfg) (s : Nat → Ev) (i k : Nat) (last : Out)
+    (hl : ∀ j, last ≠ .reply j ∧ last ≠ .illegal j) (j : Nat)
+    (h : (attempts c s i k last).1 = .reply j ∨ (attempts c s i k last).1 = .illegal j) :
+    j + 1 = k + nReads (attempts c s i k last).2 := by
+  fun_induction attempts c s i k last with
+  | case1 => rcases h with h | h <;> simp_all
+  | case2 i k _ _ hk ih =>
+    have := ih (by simp) (by simpa [pre] using h)
+    simp [pre, afterFault_nr]; omega
+  | case3 i k _ _ hk ih =>
+    have := ih (by simp) (by simpa [pre] using h)
+    simp [pre, afterFault_nr]; omega
+  | case4 i k _ _ hk ih =>
+    have := ih (by simp) (by simpa [pre] using h)
+    simp [pre, afterFault_nr]; omega
+  | case6 i k last _ hk _ ih =>
+    have := ih hl (by simpa [pre] using h)
+    simp [pre]; omega
+  | case11 i k _ _ hk o t hp =>
+    have pn := (pend_facts c s (k+1) 1 0).next
+    rw [hp] at pn
+    simp only at h pn ⊢
+    rcases h with h | h <;> subst h <;> simp at pn ⊢ <;> omega
+  | case12 i k _ _ hk k' t hp ih =>
+    have pn := (pend_facts c s (k+1) 1 0).next
+    rw [hp] at pn
+    have := ih (by simp) (by simpa [pre] using h)
+    simp at pn
+    simp [pre]; omega
+  | case13 i k _ _ hk k' t hp ih =>
+    have pn := (pend_facts c s (k+1) 1 0).next
+    rw [hp] at pn
+    have := ih (by simp) (by simpa [pre] using h)
+    simp at pn
+    simp [pre, afterFault_nr]; omega
+  | _ => rcases h with h | h <;> simp_all <;> omega
+
+/-- what the specification lets a request return is a final reply or a busyRepeatRequest -/
+theorem implied_reply_event {B : Bounds} {s : Nat → Ev} {ph : Phase} {b k0 k : Nat}
+    (h : Implied B s ph b k0 (.reply k)) : (s k).final = true ∨ s k = .busy := by
+  generalize ho : Out.reply k = o at h
+  induction h with
+  | final hf => injection ho with e; subst e; exact .inl hf
+  | busyLast hk => injection ho with e; subst e; exact .inr hk
+  | busyAfterPending hk => injection ho with e; subst e; exact .inr hk
+  | busyRetry _ _ ih => exact ih ho
+  | silentRetry _ _ ih => exact ih ho
+  | lostRetry _ _ ih => exact ih ho
+  | pendFirst _ _ ih => exact ih ho
+  | pendAgain _ _ _ ih => exact ih ho
+  | quiet _ _ _ ih => exact ih ho
+  | silenceRetry _ _ _ ih => exact ih ho
+  | _ => cases ho
+
 /-! ### the specification determines the outcome -/
 
 theorem final_eq {e : Ev} : e.final = true ↔ e = .negFinal ∨ e = .posFinal := by cases e <;> simp [Ev.final]
